@@ -20,7 +20,8 @@ RULE = ("every sequence of <= 4 members (5 thorough) over kinds {visor file of s
         "header order, or mixing visor and ustar members")
 ASSUMPTIONS = [
     "visor header layout as in mc/builders/vmtar.py, which walks the repository fixture test.vgz correctly",
-    "data areas may be placed in any order and at any offset behind the header area; the alignment is a convention of the writer",
+    "data areas may be placed in any order and at any non-zero offset (also inside the header area); the alignment is a "
+    "convention of the writer",
 ]
 ALPHABET = "member kind x order x data-area permutation x alignment x gap x gzip"
 BOUND = {"quick": "<= 3 members full product, 4 members thin", "thorough": "<= 4 members full product, 5 thin"}
@@ -55,7 +56,8 @@ def run_shard(shard, ctx):
                      "payload-is-tar-gz", "tar-with-leftover-blocks", "vmtar-with-leftover-blocks",
                      "pax-x-path", "pax-x-size", "pax-X-path", "pax-X-size", "pax-g-comment", "pax-x-before-ustar",
                      "pax-x-before-dir-after-file", "links-visor", "links-ustar", "links-mixed", "regular-typeflags",
-                     "relinked-visor", "relinked-ustar", "open-by-name-after-fileobj", "pax-size-override-ustar", "pax-size-override-between-visor"):
+                     "relinked-visor", "relinked-ustar", "open-by-name-after-fileobj", "pax-size-override-ustar", "pax-size-override-between-visor",
+                     "pax-size-before-nonregular-with-offset", "data-inside-header-area"):
             run_case({"special": what}, ctx)
         return
     if shard.get("high"):
@@ -215,6 +217,47 @@ def _case_special(case, ctx):
                        for m in tarfile.open(fileobj=io.BytesIO(img)).getmembers()] if not between else None
                 if ref is not None and ref != exp:
                     raise AssertionError(f"harness: the standard reader disagrees with the expectation: {str(ref)[:200]}")
+                got = _listing(vmtar.open(fileobj=io.BytesIO(img)))
+            elif what == "pax-size-before-nonregular-with-offset":
+                # a pax size record in front of visor members that are not regular files (directory, symlink, hard link) and whose
+                # header nevertheless records a data offset; further members follow
+                def rec(k, v):
+                    body = f" {k}={v}\n".encode()
+                    n = len(body) + 1
+                    while len(str(n)) + len(body) != n:
+                        n = len(str(n)) + len(body)
+                    return str(n).encode() + body
+
+                got, exp = [], []
+                for typ, name in ((b"5", "d/dir/"), (b"2", "d/sym"), (b"1", "d/hard")):
+                    payload = rec("size", "0") + rec("mtime", "1700000000")
+                    heads = bytearray()
+                    heads += B.hdr("d/first", 600, offset_data=8192)
+                    heads += B.hdr("././@PaxHeader", len(payload), typ=b"x", visor=False) + B.pad512(payload)
+                    h = bytearray(B.hdr(name, 0, typ=typ, offset_data=12288 + 512))
+                    if typ in (b"1", b"2"):
+                        h[157:157 + 7] = b"d/first"
+                        h[148:156] = b" " * 8
+                        h[148:156] = b"%06o\0 " % sum(h)
+                    heads += bytes(h)
+                    heads += B.hdr("d/after", 5, offset_data=8192 + 4096) + B.hdr("d/u", 513, visor=False) + B.pad512(b"U" * 513)
+                    heads += b"\0" * 1024
+                    img = bytes(heads).ljust(8192, b"\0") + (b"F" * 600).ljust(4096, b"\xEE") + b"AFTER".ljust(4096, b"\xEE") + b"Z" * 1024
+                    t = vmtar.open(fileobj=io.BytesIO(img))
+                    got.append([(m.name, m.type) for m in t.getmembers()] + [t.extractfile("d/after").read(), t.extractfile("d/u").read()])
+                    exp.append([("d/first", b"0"), (name.rstrip("/"), typ), ("d/after", b"0"), ("d/u", b"0"), b"AFTER", b"U" * 513])
+            elif what == "data-inside-header-area":
+                # tiny members whose recorded data offset lies inside the header area (1..511 and inside a later header block): the
+                # bytes stored there are what they extract to
+                heads = bytearray()
+                heads += B.hdr("etc/hostname-of-the-box", 9, offset_data=4)       # bytes 4..12 of the first header block (its name)
+                heads += B.hdr("etc/b", 7, offset_data=511)                        # straddles the first two header blocks
+                heads += B.hdr("etc/c", 5, offset_data=512 * 2 + 257)              # the "visor" magic of the third header
+                heads += B.hdr("etc/last", 600, offset_data=4096)
+                heads += b"\0" * 1024
+                img = bytes(heads).ljust(4096, b"\0") + b"L" * 600
+                exp = [("etc/hostname-of-the-box", False, img[4:13]), ("etc/b", False, img[511:518]), ("etc/c", False, img[1281:1286]),
+                       ("etc/last", False, b"L" * 600)]
                 got = _listing(vmtar.open(fileobj=io.BytesIO(img)))
             elif what == "regular-typeflags":
                 # every typeflag that denotes a regular file ('0', NUL, '7' contiguous) as visor members with out-of-line data,
